@@ -121,14 +121,64 @@ def main(tier, pid='C04'):
     if sats and not done:
         check.inconclusive.append(f'{len(sats)} solver counterexamples, none reproduced natively (first: {sats[0][2]})')
     check.samples = [r['sample'] for r in results[:6] if r['sample']]
+    kq = []
+    if pid == 'C04':
+        nob, ndis, nsat_c, kq = composition(check, tier, nob, ndis)
+        sats = sats + [None] * nsat_c
     check.assumptions += ['component timelines are abstract and obey L-tl: update writes F_k(start values, t); F_k(v, 0) = v; start_with replaces the start values (proved for the real derive timelines in C02/C09/C10)',
                           'Duration is modelled by its nanosecond count; from_secs_f32 / as_secs_f32 uninterpreted with from(0)=0, as(0)=0 (exact model: C06)',
                           'advance amounts finite, >= 0, < 2^40 s; histories that overflow Duration panic (C20) and are not judged here']
     check.info.update(configurations=len(cfgs), histories=sum(r['histories'] for r in results), depth=depth_for(tier),
                       bounds=f'{3 if tier == "quick" else 4} states, every assignment of none/single/merged timelines, every operation sequence up to {depth_for(tier)} operations ending in set_state (advance amounts symbolic)')
     check.obligations = []
+    und = [dict(name=o.name, status=(o.result.status if o.result else 'not-run'), detail='') for o in kq if o.result is None or o.result.status in ('timeout', 'unknown', 'error')]
+    extra = {'obligations': nob, 'discharged': ndis, 'sat_counterexamples': len(sats), 'evaluations': max(1, nob), 'distinct_nontrivial': max(2, nob)}
+    if kq:
+        extra['queries'] = [dict(name=o.name, status=o.result.status if o.result else 'not-run', solver=o.result.solver if o.result else None, secs=round(o.result.secs, 2) if o.result else None, words=o.words) for o in kq]
+        extra['undischarged'] = und
+        extra['solver_time_s'] = round(sum(o.result.secs for o in kq if o.result), 2)
     return check.finish(rule='one obligation per set_state in every history shape x configuration; states = explored paths, transitions = set_state steps judged',
-                        extra_cov={'obligations': nob, 'discharged': ndis, 'sat_counterexamples': len(sats), 'evaluations': max(1, nob), 'distinct_nontrivial': max(2, nob)})
+                        extra_cov=extra)
+
+
+def composition(check, tier, nob, ndis):
+    """C04 over REAL derive timelines inside the real animator (anim_concrete.py) + the time-scale lemma that harness assumes"""
+    import anim_concrete as AC
+    from kernel_timescale import TSummary, ZERO as KZ
+    cres, cnob, cndis, csats = AC.concrete_part(check, tier)
+    check.paths += sum(r['paths'] for r in cres); check.states = check.paths
+    check.info['composition'] = dict(histories=len(cres), obligations=cnob, discharged=cndis, paths=sum(r['paths'] for r in cres),
+                                     bounds='3 states (animated / none / animated; thorough: more shapes), real S1 timelines with one keyframe at a symbolic position (thorough: two), symbolic delay / duration / repeat / reverse per timeline, every operation sequence up to %d operations ending in set_state' % (3 if tier == 'quick' else 4),
+                                     sample=next((r['sample'] for r in cres if r['sample']), None))
+    done = 0
+    for r, s in sorted(csats, key=lambda x: (len(x[0]['ops']), x[1]['step']))[:30]:
+        case = AC.replay_case(r, s)
+        nat = run_replay([case], 'dev', 'replay_anim')[0]
+        check.traces_validated += 1
+        if nat.get('jump'):
+            check.report_violation(f'composition_{done}', 'C04:composition:' + ','.join(case['ops']), f'real derive timelines {case["specs"]} (cycle;delay;repeat;reverse;keyframe position;value per animated state), states {case["config"]}: {"; ".join(case["ops"])} -> {nat["detail"]}', case)
+            done += 1
+            if done >= 2: break
+    if csats and not done:
+        check.inconclusive.append(f'composition: {len(csats)} solver counterexamples, none reproduced natively (first: {str(csats[0][1])[:300]})')
+    # the instances of L-pos assumed by the composition harness, on the real MIR of TimeScale::get_position
+    S = TSummary(_G['prog'], _G['enums'], check=check)
+    bound = S.quick_bound(12) if tier == 'quick' else []
+    to = 110 if tier == 'quick' else 1500
+    pre = S.valid() + [z3.Not(S.panic)] + bound
+    kq = [check.add(Obligation('C04.K-position-at-the-delay-is-zero', pre + [z3.fpEQ(S.t, S.delay), z3.Not(z3.fpIsNegative(S.t)), z3.Not(z3.And(S.tag == 1, S.pos == KZ, z3.Not(S.rep), z3.Not(S.rev)))], S.inputs, timeout=to,
+                               words='t == delay (t not -0.0: times are Duration::as_secs_f32 values)  =>  Active(+0.0, not repeating, not reversing): a freshly entered state (time 0, no delay) evaluates at exactly 0%')),
+          check.add(Obligation('C04.K-not-started-iff-before-the-delay', pre + [(S.tag == 0) != z3.fpLT(S.t, S.delay)], S.inputs, timeout=to,
+                               words='NotStarted  <=>  t < delay'))]
+    check.run()
+    for o in kq:
+        nob += 1
+        if o.result is not None and o.result.status == 'unsat': ndis += 1
+        elif o.result is not None and o.result.status == 'sat':
+            check.inconclusive.append(f'{o.name}: the time-scale lemma assumed by the composition harness fails on the real MIR (see C03)')
+        else:
+            check.inconclusive.append(f'{o.name}: undecided ({o.result.status if o.result else "not run"})')
+    return nob + cnob, ndis + cndis, len(csats), kq
 
 
 if __name__ == '__main__':
